@@ -101,8 +101,10 @@ class AbstractInterval(ABC):
         elif chromosome_relative_coordinates is False:
             raise NotImplementedError("Cannot export parent to chunk relative coordinates")
 
-        if self.chunk_relative_location.has_ancestor_of_type(SequenceType.SEQUENCE_CHUNK):
-            chunk_parent = self.chunk_relative_location.first_ancestor_of_type(SequenceType.SEQUENCE_CHUNK)
+        # ask the parent itself: the chunk-relative location is empty (and has no ancestors) when this interval
+        # does not overlap its sequence chunk
+        if self._parent_or_seq_chunk_parent.has_ancestor_of_type(SequenceType.SEQUENCE_CHUNK):
+            chunk_parent = self._parent_or_seq_chunk_parent.first_ancestor_of_type(SequenceType.SEQUENCE_CHUNK)
             sequence = chunk_parent.sequence
             if not sequence:
                 raise NoSuchAncestorException("Chunk parents must have sequence")
@@ -116,8 +118,8 @@ class AbstractInterval(ABC):
                 "alphabet": sequence.alphabet.name,
                 "type": SequenceType.SEQUENCE_CHUNK.name,
             }
-        elif self.chunk_relative_location.has_ancestor_of_type(SequenceType.CHROMOSOME):
-            parent = self.chunk_relative_location.first_ancestor_of_type(SequenceType.CHROMOSOME)
+        elif self._parent_or_seq_chunk_parent.has_ancestor_of_type(SequenceType.CHROMOSOME):
+            parent = self._parent_or_seq_chunk_parent.first_ancestor_of_type(SequenceType.CHROMOSOME)
             sequence = parent.sequence
             location = self.chromosome_location
             return {
